@@ -21,12 +21,15 @@ returns (after that the writer is released and the collection closed).
 Case grammar sent to `drv_datalog` (see Drv/DataLog.lean):
 
     CASE <id> S <writePeriod> <tail>
-    DS <A|-|t,t,..> <interval|0>            one per data set (A = ALL_MESSAGE_TYPES, - = selects nothing)
+    DS <A|-|t,t,..> <interval|0> <raw|json|ql|csv>    one per data set (A = ALL_MESSAGE_TYPES, - = selects nothing)
     OPS u:<dt>:<type>:<id> t:<dt> p:<dt> r:<dt> … s:<dt>      (exactly one s, last)
     SCHED <string over R W>
     OBS <done|stuck|raise:X> warn=<n> wdead=<0|1>
     TR <label> …                            gate labels in execution order
     F <ds> <ids…>                           one per file of data set <ds>, in file order ('?' = undecodable)
+    HDR <hdrsize> <offset of num_data_bytes>   (the next three kinds only when stop() returned)
+    ENC <id> <hdrhex> <datahex|-> <jsonhex>  what the formatters read of message <id>
+    FB <ds> <hex|->                          bytes of each file of data set <ds>, same order as the F lines
     END
 
     CASE <id> F <fmt> <hdrsize> <offset of num_data_bytes in the header>
@@ -504,10 +507,12 @@ def run_sched_case(case: Dict[str, Any]) -> Dict[str, Any]:
             ext = dsets[i].formatter_cls.ext
             ordered = [n for n in names if n == "f" + ext] + sorted(n for n in names if n != "f" + ext)
             flist = []
+            blist = []
             for n in ordered:
                 if obs["status"] != "done":
                     flist.append(["?"])
                     continue
+                blist.append(open(os.path.join(ddir, n), "rb").read())
                 dec = decode_file(d["fmt"], os.path.join(ddir, n))
                 ids: List[Any] = []
                 for hk, dk in dec:
@@ -519,6 +524,7 @@ def run_sched_case(case: Dict[str, Any]) -> Dict[str, Any]:
                         ids.append(keys.get((hk, dk), "?"))
                 flist.append(ids)
             obs["files"].append(flist)
+            obs.setdefault("fbytes", []).append(blist)
     finally:
         # tear down: unwind R if it is still inside stop(), let the writer run out
         ctl.abort = ctl.at.get("R") != "finished"
@@ -569,6 +575,31 @@ def _wrap(ctl: Controller, ds, i: int):
 # protocol text
 # ------------------------------------------------------------------------------------------------
 
+_ENC_CACHE: Dict[Tuple[int, int], str] = {}
+FMT_TOK = {"raw": "raw", "json": "json", "quicklogger": "ql", "msg_header": "csv"}
+
+
+def bytes_lines(case: Dict[str, Any], obs: Dict[str, Any]) -> List[str]:
+    """what the formatters read of every message of the case (ENC) and the bytes of every file left behind (FB):
+    the driver renders the model's files through the formatter model and compares, and evaluates the
+    files-read-back clauses of the Spec on the real bytes"""
+    if obs["status"] != "done" or "fbytes" not in obs:
+        return []
+    E = env()
+    lines = [f"HDR {E['hdr_cls']().size} {ndb_offset()}"]
+    for op in case["ops"]:
+        if op[0] == "u":
+            k = (op[2], op[3])
+            if k not in _ENC_CACHE:
+                m = mk_msg(op[2], op[3])
+                _ENC_CACHE[k] = f"{hx(bytes(m.header))} {hx(bytes(m.data))} {hx(m.to_json(minify=True).encode())}"
+            lines.append(f"ENC {op[3]} {_ENC_CACHE[k]}")
+    for i, bl in enumerate(obs["fbytes"]):
+        for b in bl:
+            lines.append(f"FB {i} {hx(b)}")
+    return lines
+
+
 def sel_tok(types) -> str:
     if types == "A":
         return "A"
@@ -580,7 +611,7 @@ def sched_block(cid: str, case: Dict[str, Any], obs: Dict[str, Any]) -> List[str
     wp = E["dcm"].DataCollection.WRITE_PERIOD
     lines = [f"CASE {cid} S {int(wp) if float(wp).is_integer() else wp} {tail_len(case)}"]
     for d in case["ds"]:
-        lines.append(f"DS {sel_tok(d['types'])} {eff_interval(d['interval'])}")
+        lines.append(f"DS {sel_tok(d['types'])} {eff_interval(d['interval'])} {FMT_TOK[d['fmt']]}")
     toks = []
     for op in case["ops"]:
         toks.append(f"u:{op[1]}:{op[2]}:{op[3]}" if op[0] == "u" else f"{op[0]}:{op[1]}")
@@ -591,6 +622,7 @@ def sched_block(cid: str, case: Dict[str, Any], obs: Dict[str, Any]) -> List[str
     for i, fl in enumerate(obs["files"]):
         for ids in fl:
             lines.append(f"F {i} " + " ".join(str(x) for x in ids))
+    lines += bytes_lines(case, obs)
     lines.append("END")
     return lines
 
